@@ -409,6 +409,58 @@ def deep_loop_case(ctx, case):
                       f'{iters} iterations at depth {depth}: in the tree {v!r}, alone {own!r}, reference {rv!r}')
 
 
+def leaf_context_case(ctx, case):
+    """a committed leaf runs in the context the embedder and the earlier scripts set up, exactly as it would on its own:
+    flags given to the run (slack thresholds), functions defined by an earlier script, the embedder's contracts"""
+    what, depth = case
+    t = 1_700_000_000
+    rec = Recorder()
+    if what == 'ts_threshold 0':
+        env.Clock.now = t - 100
+        leaf_code = P(t.to_bytes(4, 'big')) + op('CHECK_TIMESTAMP')
+        pre, kw = [], dict(additional_flags={'ts_threshold': 0})
+    elif what == 'ts_threshold 500':
+        env.Clock.now = t - 100
+        leaf_code = P(t.to_bytes(4, 'big')) + op('CHECK_TIMESTAMP')
+        pre, kw = [], dict(additional_flags={'ts_threshold': 500})
+    elif what == 'epoch_threshold 3600':
+        env.Clock.now = t - 1000
+        leaf_code = P(t.to_bytes(4, 'big')) + op('CHECK_EPOCH')
+        pre, kw = [], dict(additional_flags={'epoch_threshold': 3600})
+    elif what == 'function defined by the witness':
+        env.Clock.now = t
+        leaf_code = op('CALL') + b'\x05'
+        pre, kw = [op('DEF') + b'\x05' + (1).to_bytes(2, 'big') + op('TRUE')], {}
+    else:   # contract supplied by the embedder
+        env.Clock.now = t
+        leaf_code = P(b'\x07') + P(b'\x01') + P(CID) + op('INVOKE') + op('TRUE')
+        pre, kw = [], dict(contracts={CID: rec})
+    leaf = T.ScriptLeaf.from_code(leaf_code)
+    node = leaf
+    for i in range(depth):
+        other = T.ScriptLeaf.from_code(leaf_script(i))
+        node = T.ScriptNode(other, node) if i % 2 == 0 else T.ScriptNode(node, other)
+    cache = {'timestamp': t}
+
+    def run(scripts):
+        try:
+            _, st, _ = F.run_script(b''.join(scripts), dict(cache), **kw)
+            return st.list()
+        except BaseException as e:
+            return type(e).__name__
+    alone = run(pre + [leaf_code])
+    in_tree = run(pre + [leaf.unlocking_script().bytes, node.locking_script().bytes])
+    ctx.ran(2)
+    ctx.trans(depth + 1)
+    ctx.state(('leaf-context', what, depth))
+    ctx.outcome('ctx:%s' % (alone,))
+    if alone != [b'\xff'] and what != 'x':
+        ctx.violation({'clause': 'harness expectation', 'what': what}, f'the leaf alone gives {alone}')
+    if in_tree != alone:
+        ctx.violation({'clause': 'the verdict is the leaf script\'s own verdict', 'leaf': 'depends on ' + what.split(' ')[0]},
+                      f'{what}, depth {depth}: in the tree {in_tree}, alone {alone}')
+
+
 def builder_case(ctx, n):
     cnt = 0
     srcs = lambda: [T.Script.from_bytes(leaf_script(i)) for i in range(n)]
@@ -515,6 +567,9 @@ def blocks(tier, seed):
         Block('all_tree_shapes', cases, shape_case,
               'all binary tree shapes with 2..%d leaves (%d shapes), every leaf; every proof corruption for shapes <= %d leaves'
               % (nmax, len(cases), cmax), nshards=min(len(cases), 128)),
+        Block('leaf_in_embedder_context', [(w, d) for w in ('ts_threshold 0', 'ts_threshold 500', 'epoch_threshold 3600',
+                                                            'function defined by the witness', 'contract of the embedder') for d in (1, 2, 4)],
+              leaf_context_case, 'leaf depending on run flags / an earlier script\'s function / an embedder contract x depth 1, 2, 4', nshards=15),
         Block('deep_loop_leaf', [(it, d) for it in (1, 100, 120, 124, 125, 126, 127) for d in range(0, 9)], deep_loop_case,
               'leaf looping {1,100,120,124..127} times x depth 0..8 of a comb tree', nshards=32),
         Block('leaf_sizes', [(sz, n, pos) for sz in LEAF_SIZES for n in (1, 2, 3) for pos in range(n)], leaf_size_case,
